@@ -10,12 +10,25 @@ int main(int argc, char** argv)
         auto prog = vrt::parse_prog(x.rt.cfg.prog);
         Barrier* B = x.make<Barrier>("barrier", (size_t)x.param("count", (long)prog.size()));
         static const std::vector<const char*> names{"wait", "wait_and_drop"};
+        // data=1 (C07): every participant writes a plain datum before arriving at generation g and, once through, reads the data of
+        // everybody who takes part in generation g (thread u takes part in generation g iff its program has a g-th operation)
+        bool data = x.param("data", 0) != 0;
+        auto lens = std::make_shared<std::vector<size_t>>();
+        for (auto& menus : prog) lens->push_back(menus.size());
+        int wid = 0;
         for (auto& menus : prog) {
-            x.worker([B, menus] {
+            ++wid;
+            x.worker([B, menus, data, lens, wid] {
+                int g = 0;
                 for (auto& menu : menus) {
+                    ++g;
                     int op = vrt::pick_and_call(menu, names);
+                    if (data) vrt::step_ev("pw", "data", 8 * wid + g, 1);
                     if (op == 0) B->wait();
                     else B->wait_and_drop();
+                    if (data)
+                        for (size_t u = 0; u < lens->size(); ++u)
+                            if ((int)u + 1 != wid && (*lens)[u] >= (size_t)g) vrt::step_ev("pr", "data", 8 * ((int)u + 1) + g, 1);
                     vrt::ret_ev(names[(size_t)op]);
                     if (op == 1) break;  // a dropped thread takes no further part
                 }
